@@ -35,7 +35,7 @@ def perms(keys):
         yield tuple(p)
 
 
-def check_case(ref, s, groups=None):
+def check_case(ref, s, groups=None, polluted=False):
     from spil import Sid
     out = []
 
@@ -45,6 +45,14 @@ def check_case(ref, s, groups=None):
     t, d = ref.natural(s)
     if t is None:
         return out, "skipped-untyped"
+    if polluted:
+        # a Sid *object* of another type that accepts the same string went through the factory first (cold factory cache)
+        others = [t2 for t2 in ref.all_types(s) if t2 != t]
+        if not others:
+            return out, "skipped-unambiguous"
+        from spil.sid.core.sid_factory import sid_to_sid
+        sid_to_sid.cache_clear()
+        Sid(Sid(others[0] + ":" + s))
     x = Sid(s)
     items = list(d.items())
     if x.type != t or list(x.fields.items()) != items or x.string != s:
@@ -143,6 +151,14 @@ def run_shard(sh):
         rec.case(cls, True, sample=s)
         for v in viols:
             rec.violation(v["signature"], "str", s, v["observed"], v["expected"])
+        # once more after a Sid object of another type of the same string (ambiguous strings only)
+        v2, cls2 = check_case(ref, s, None, polluted=True)
+        if not cls2.startswith("skipped"):
+            rec.case(cls2 + "/after-object-of-other-type", True, sample=s)
+            for v in v2:
+                rec.violation(v["signature"] + "/after-object-of-other-type", "str-polluted", s, v["observed"], v["expected"])
+            from spil.sid.core.sid_factory import sid_to_sid
+            sid_to_sid.cache_clear()
     # x == y  <=>  (type, fields) equal, over everything this shard saw
     for sid, tfs in groups[0].items():
         if len(tfs) > 1:
@@ -186,6 +202,8 @@ def replay_case(kind, case):
         if (a == b) != same_tf:
             return [dict(signature="equal-sids-with-different-type-or-fields", observed=[a.uri, b.uri, a == b], expected=same_tf)]
         return []
+    if kind == "str-polluted":
+        return [dict(v, signature=v["signature"] + "/after-object-of-other-type") for v in check_case(ref, case, None, polluted=True)[0]]
     return check_case(ref, case)[0]
 
 
